@@ -179,6 +179,8 @@ class A23:
                         st.pop(dl, None)
             return st
 
+        from .flow import threaded_successors
+        tsucc = threaded_successors(b)
         ins = {0: {}}
         work = [0]
         outs = {}
@@ -190,9 +192,7 @@ class A23:
             if outs.get(bi) == out:
                 continue
             outs[bi] = out
-            for d in cfg.succ[bi]:
-                if b.blocks[d]["cleanup"]:
-                    continue
+            for d in tsucc.get(bi, ()):
                 cur = ins.get(d)
                 if cur is None:
                     ins[d] = dict(out)
